@@ -107,13 +107,14 @@ def random_instance(rng, n, p_edge=0.35, weights=(0.2, 0.35, 0.45)):
 def chain_family(max_nodes=7):
     """Shapes built around one dependency chain c1 -> c2 -> ... -> cL (L = 2..5; inner links Ephemeral or Output, the last
     one Output or Always), where every link may additionally have
-       a side consumer (an Output job), the side consumer optionally with a trigger of its own,
+       a side consumer (an Output job), the side consumer optionally with a trigger of its own, a side chain (an Ephemeral
+       feeding an Output),
        or a trigger feeding the link itself (an extra upstream that is executed: Always, or an Output whose result may be missing).
     These are the situations the engine's on-demand logic is about: Ephemerals that are needed late (a trigger's output
     changes after the Ephemeral was judged unnecessary), validly skipped Outputs sitting between a failing Ephemeral and
     jobs further down, cleanup with several consumers.  Deterministic enumeration; yields (nodes, edges)."""
     out = []
-    side_opts = ['-', 's', 'st', 't']
+    side_opts = ['-', 's', 'st', 't', 'sc']      # sc: a side chain link -> Ephemeral -> Output
     for L in (2, 3, 4, 5):
         for inner in itertools.product(['Ephemeral', 'Output'], repeat=L - 1):
             for last in ('Output', 'Always'):
@@ -121,9 +122,9 @@ def chain_family(max_nodes=7):
                 if 'Ephemeral' not in kinds:
                     continue
                 for sides in itertools.product(side_opts, repeat=L):
-                    if sides[-1] in ('s', 'st'):
+                    if sides[-1] in ('s', 'st', 'sc'):
                         continue        # a consumer of the last link is just a longer chain
-                    n = L + sum({'-': 0, 's': 1, 'st': 2, 't': 1}[s] for s in sides)
+                    n = L + sum({'-': 0, 's': 1, 'st': 2, 't': 1, 'sc': 2}[s] for s in sides)
                     if n > max_nodes or n < 4:
                         continue
                     for tk in ('Always', 'Output'):
@@ -136,6 +137,11 @@ def chain_family(max_nodes=7):
                             if s == 't':
                                 nodes.append(('t%d' % (i + 1), tk))
                                 edges.append((c, 't%d' % (i + 1)))
+                            elif s == 'sc':
+                                nodes.append(('e%d' % (i + 1), 'Ephemeral'))
+                                nodes.append(('o%d' % (i + 1), 'Output'))
+                                edges.append(('e%d' % (i + 1), c))
+                                edges.append(('o%d' % (i + 1), 'e%d' % (i + 1)))
                             elif s in ('s', 'st'):
                                 nodes.append(('s%d' % (i + 1), 'Output'))
                                 edges.append(('s%d' % (i + 1), c))
